@@ -28,6 +28,9 @@ pub async fn op_http_script(sc: Value) -> Value {
                 Err(_) => continue,
             };
             let i = h2.fetch_add(1, Ordering::SeqCst);
+            // one thread per connection: a stalled response must not delay the answer to the retry
+            let (responses, r2, res2) = (responses.clone(), r2.clone(), res2.clone());
+            std::thread::spawn(move || loop {
             let mut buf = [0u8; 4096];
             let n = s.read(&mut buf).unwrap_or(0);
             let req = String::from_utf8_lossy(&buf[..n]).to_string();
@@ -41,13 +44,13 @@ pub async fn op_http_script(sc: Value) -> Value {
                     std::thread::sleep(std::time::Duration::from_millis(900));
                 }
                 drop(s);
-                continue;
+                break;
             }
             let status = r["status"].as_u64().unwrap_or(200);
             let announce = r["announce"].as_bool().unwrap_or(false);
             if status != 200 {
                 let _ = s.write_all(format!("HTTP/1.1 {status} X\r\nContent-Length: 0\r\nConnection: close\r\n\r\n").as_bytes());
-                continue;
+                break;
             }
             let start = if honours { range.unwrap_or(0).min(res2.len()) } else { 0 };
             let body = &res2[start..];
@@ -86,6 +89,8 @@ pub async fn op_http_script(sc: Value) -> Value {
                 let _ = s.write_all(&body[sent..]);
             }
             drop(s);
+            break;
+            });
         }
     });
     let t = tough::HttpTransportBuilder::new()
